@@ -126,6 +126,9 @@ def _spawn(jobs, threads, name, timeout, prefix=(), stall=None):
     ef = os.path.join(d, "stderr-%s.txt" % tag)
     with open(jf, "w") as f:
         json.dump({"threads": threads, "jobs": [{k: v for k, v in j.items() if k not in ("prefix", "risky")} for j in jobs]}, f)
+    for j in jobs:      # a re-run starts its hook log afresh
+        if j.get("log") and os.path.exists(j["log"]):
+            os.remove(j["log"])
     env = dict(os.environ)
     for k in ("BINDGEN_VERIF_LOG", "TARGET", "BINDGEN_EXTRA_CLANG_ARGS", "RUST_BACKTRACE"):
         env.pop(k, None)
@@ -460,7 +463,7 @@ def build_inputs(base, rnd, tier):
                           "header": hp, "text": text, "shape": "nesting:%s@%d" % (shape, dep), "facts": dict(facts0),
                           "deep": True})
     # every edge literal in every constant-evaluating context; annotations in odd places
-    for i, (shape, ext, text) in enumerate(G.literal_contexts() + G.annotations()):
+    for i, (shape, ext, text) in enumerate(G.literal_contexts() + G.annotations() + G.witnesses()):
         hp = os.path.join(d, "l-%04d%s" % (i, ext))
         with open(hp, "w") as f:
             f.write(text)
@@ -569,6 +572,43 @@ def reduce_witness(c, rawkey, base, budget=90):
     return "\n".join(lines) + "\n"
 
 
+PS_EVENTS = ("reset", "parse_push", "parse_pop", "gen_end")
+
+
+def validate_parse_stack(logdir, ids, name, events=None):
+    """Trace_ParseStack.tla over the hook logs of `ids` (or over a given event list).
+    -> (violations, counts, tlc result, events of the first run that pushed something)."""
+    d = C.workdir("c12-trace-ps-" + name)
+    tp = os.path.join(d, "trace.ndjson")
+    sample = []
+    with open(tp, "w") as o:
+        if events is not None:
+            for e in events:
+                o.write(json.dumps(e) + "\n")
+        else:
+            for i in ids:
+                p = os.path.join(logdir, i + ".ndjson")
+                if not os.path.exists(p):
+                    continue
+                mine = []
+                with open(p, errors="replace") as f:
+                    for line in f:
+                        if line.startswith('{"ev":"') and line[7:line.index('"', 7)] in PS_EVENTS:
+                            o.write(line)
+                            if not sample:
+                                mine.append(json.loads(line))
+                if not sample and any(e["ev"] == "parse_pop" for e in mine) and mine[-1]["ev"] == "gen_end":
+                    sample = mine
+    r = C.tlc(os.path.join(FRONT, "Trace_ParseStack.tla"), cfg="Trace_ParseStack.cfg", env={"TRACE": tp}, workers=1,
+              dfs=True, timeout=1500, name="c12-tvps-" + name)
+    if not C.tlc_ok(r):
+        raise C.ToolError("Trace_ParseStack did not complete (%s): %s" % (name, r["out"][-1200:]))
+    v = C.tlc_prints(r["out"], "VIOL")
+    c = C.tlc_prints(r["out"], "COUNTS")
+    os.remove(tp)
+    return (v[0] if v else []), (c[0] if c else {}), r, sample
+
+
 def fail_shape(c):
     """What kind of input made the process hang / die (for keys of failures without a panic location)."""
     m = re.search(r"rustbindgen\s+(\w+)", c["text"])
@@ -648,8 +688,14 @@ def run(res, tier):
 
     # ---- library driver ------------------------------------------------------------------------
     t1 = time.time()
+    logdir = os.path.join(base, "logs")
+    os.makedirs(logdir, exist_ok=True)
+
+    def logged(c):     # runs whose parse_push / parse_pop events are validated against ParseStack
+        return c["shape"] in ("refgraph", "corpus", "prog") or c.get("deep")
     jobs = [{"id": c["id"], "args": c["args"], "callbacks": c.get("callbacks"), "prefix": list(c.get("prefix", ())),
-             "risky": c["shape"].startswith(("literal-in-", "annotation-")) or c["shape"].endswith("literal-subst")}
+             "log": os.path.join(logdir, c["id"] + ".ndjson") if logged(c) else None, "detail": 1 if logged(c) else 0,
+             "risky": c["shape"].startswith(("literal-in-", "annotation-", "witness-")) or c["shape"].endswith("literal-subst")}
             for c in cases if c.get("lib", True)]
     out, retried = drive(jobs, "c12-drive")
     obs = []
@@ -733,6 +779,31 @@ def run(res, tier):
                              "although the OS would let this process read them (clang -fsyntax-only accepts them); the "
                              "code decides from the mode bits, as the model does" % n)
 
+    # ---- T: parse_push / parse_pop events of the logged runs are a behaviour of ParseStack ------------
+    ids = [c["id"] for c in cases if logged(c) and c.get("lib", True)]
+    pv, pc, ptr, sample_events = validate_parse_stack(logdir, ids, "all")
+    for v in pv:
+        c = byid.get(v["case"])
+        res.violation("parse-stack:%s:%s" % (v["kind"], fail_shape(c) if c else "?"),
+                      {"case": v["case"], "item": v["item"], "depth": v["depth"], "event_index": v["at"],
+                       "header_text": c["text"][:3000] if c else ""})
+    if pc.get("pushes", 0) == 0:
+        raise C.ToolError("no parse_push events in the hook logs (hooks missing or detail not honoured)")
+    res.add(states=ptr["distinct"], transitions=ptr["generated"], parse_stack_runs_validated=pc.get("cases", 0),
+            parse_stack_pushes=pc.get("pushes", 0), parse_stack_max_depth=pc.get("maxdepth", 0))
+    # tampered logs: a push repeated while the item is on the stack, a pop dropped
+    ev = sample_events
+    ip = next(i for i, e in enumerate(ev) if e["ev"] == "parse_push")
+    t_dup = ev[:ip + 1] + [dict(ev[ip], depth=ev[ip]["depth"] + 1)] + ev[ip + 1:]
+    iq = next(i for i, e in enumerate(ev) if e["ev"] == "parse_pop")
+    t_drop = ev[:iq] + ev[iq + 1:]
+    for what, tev in (("repeated push", t_dup), ("dropped pop", t_drop)):
+        tvv, _, _, _ = validate_parse_stack(None, None, "tamper", events=tev)
+        if not tvv:
+            raise C.ToolError("tampered parse-stack log (%s) was accepted" % what)
+    res.add(tampered_parse_stack_logs_rejected=2)
+    shutil.rmtree(logdir, ignore_errors=True)
+
     # ---- non-vacuity: tampered observations must be rejected by TLC ---------------------------------
     good = [o for o in obs if o["outcome"] == "ok"][:3] + [o for o in obs if o["outcome"] == "err:ClangDiagnostic"][:3]
     tampered = []
@@ -755,7 +826,7 @@ def run(res, tier):
     for o in obs:
         k = "%s/%s/%s" % (o["ch"], o["facts"]["clang"], o["outcome"])
         outcomes[k] = outcomes.get(k, 0) + 1
-    res.add(traces_validated_against_impl=counts.get("events", 0), observations_accepted=counts.get("accepted", 0),
+    res.add(traces_validated_against_impl=counts.get("events", 0) + pc.get("cases", 0), observations_accepted=counts.get("accepted", 0),
             observations_rejected=counts.get("rejected", 0), library_runs=len(jobs), cli_runs=len(cli_sel),
             fault_vectors_enumerated=nvec, fault_vectors_unrealisable=unreal, fault_vectors_run=len(vec_cases),
             fault_vector_runs_matching_model=pred_ok, clang_accepted=sum(1 for c in cases if c["facts"]["clang"] == "accept"),
